@@ -20,7 +20,10 @@ TECHNIQUE = "Coq equivariance proofs over the model/specification + metamorphic 
 EXPLANATION = "see LEVEL_TEXT"
 ASSUMPTIONS = ["renamings are injective and avoid C keywords / reserved names true,false"]
 
-POOL = ["zz", "a1", "m_", "B", "k9", "Q", "aa", "_t", "y2", "Z0", "c", "hh", "p", "X", "d4", "b"]
+POOL = ["zz", "a1", "m_", "B", "k9", "Q", "aa", "_t", "y2", "Z0", "c", "hh", "p", "X", "d4", "b",
+        # other shapes of identifier: all capitals, underscores, keyword prefixes, long names
+        "LIMIT", "MAX_N", "NN", "A_", "_", "__x", "l1", "O0", "if_", "Int", "x_y_z", "TRUE", "False", "loop", "index", "i",
+        "a_rather_long_variable_name_1"]
 IDENT = re.compile(r"\b([A-Za-z_][A-Za-z_0-9]*)\b")
 KEEP = {"int", "long", "if", "else", "while", "do", "for", "return", "sizeof", "assert", "break", "f", "g"}
 
@@ -39,10 +42,46 @@ def transform_one(s, rng, mode):
     return r[0] if len(r) == 1 else ("block", r)
 
 
+def open_if(s):
+    """does the statement end in an if without else (a following `else` would bind to it)"""
+    k = s[0]
+    if k == "if":
+        return True if s[3] is None else open_if(s[3])
+    if k == "while":
+        return open_if(s[2])
+    if k == "for":
+        return open_if(s[4])
+    return False
+
+
+def unbrace(s, before_else=False):
+    """remove the redundant braces around a single statement in a body position"""
+    if s is not None and s[0] == "block" and len(s[1]) == 1:
+        x = s[1][0]
+        if x[0] == "s" and x[1].startswith("int "):
+            return s
+        if before_else and open_if(x):
+            return s
+        return x
+    return s
+
+
 def transform_tree(tree, rng, mode, top=True):
     out = []
     for s in tree:
         k = s[0]
+        if mode == "unbrace":
+            if k == "block":
+                s = ("block", transform_tree(s[1], rng, mode))
+            elif k in ("while", "dowhile"):
+                s = (k, s[1], unbrace(transform_tree([s[2]], rng, mode)[0]))
+            elif k == "if":
+                els = None if s[3] is None else unbrace(transform_tree([s[3]], rng, mode)[0])
+                s = ("if", s[1], unbrace(transform_tree([s[2]], rng, mode)[0], before_else=els is not None), els)
+            elif k == "for":
+                s = ("for", s[1], s[2], s[3], unbrace(transform_tree([s[4]], rng, mode)[0])) + tuple(s[5:])
+            out.append(s)
+            continue
         if k == "block":
             s = ("block", transform_tree(s[1], rng, mode, top=True))
         elif k in ("while", "dowhile"):
@@ -140,6 +179,40 @@ def run(ctx):
             if db["typed"] is not None and db["index"] <= 5 and not strict:
                 coq_cases.append((f"{kind}\n{b}", db, not fin))
 
+    def loop_check(kind, a, b, strict):
+        la, lb = loop_obs(a, None, strict), loop_obs(b, None, strict)
+        kinds["loop-" + kind] = kinds.get("loop-" + kind, 0) + 1
+        if la != lb:
+            failing.append({"what": f"loop-{kind}: loop-mode result changes under the transformation ({len(la)} vs {len(lb)} loops)",
+                            "sig": ["C12", "loop-" + kind], "input": {"src": a, "twin": b, "kind": "loop-" + kind, "opts": {"strict": strict}},
+                            "expected": la, "observed": lb})
+
+    # directed family: the guard of a counted for loop mentioned only inside a (brace-less / braced) branch of its body
+    for i in range(ctx.n(24, 200)):
+        r = ctx.rng
+        vs = ["x", "y", "z"]
+        G = r.choice(vs)
+        o1, o2 = [v for v in vs if v != G]
+        sg = r.choice([f"{o1} = {o2} + {G};", f"{G} = {o1} + {o2};", f"{o1} = {G};", f"{G} = {o1} * {o1};", f"{o1} = {G} * {o2};"])
+        so = r.choice([f"{o1} = {o1} + {o2};", f"{o2} = {o1};", f"{o1} = {o2} * {o2};"])
+        form = r.randrange(4)
+        cnd = f"{o1} > 0"
+        def ifs(b):
+            L, R = ("{ ", " }") if b else ("", "")
+            if form == 0:
+                return f"if ({cnd}) {L}{sg}{R}"
+            if form == 1:
+                return f"if ({cnd}) {L}{sg}{R} else {L}{so}{R}"
+            if form == 2:
+                return f"if ({cnd}) {L}{so}{R} else {L}{sg}{R}"
+            return f"if ({cnd}) {L}{so}{R} else if ({o2} > 0) {L}{sg}{R}"
+        pre = so + " " if r.random() < 0.5 else ""
+        outer = r.choice(["%s", "while (" + o2 + " > 0) { %s }", "%s " + so])
+        mk = lambda b: "int f(int x, int y, int z, int i)\n{\n" + outer % f"for (i = 0; i < {G}; i++) {{ {pre}{ifs(b)} }}" + "\n}\n"
+        fin, strict = r.random() < 0.5, r.random() < 0.3
+        check("braces", mk(False), mk(True), None, fin, strict)
+        loop_check("braces", mk(False), mk(True), strict)
+
     for i in range(n):
         cfg = streams.cfg_for(ctx.rng, 5)
         g = gen_prog.Gen(ctx.rng, cfg)
@@ -162,6 +235,15 @@ def run(ctx):
         check("minus", src, src.replace(" + ", " - "), None, fin, strict)
         check("braces", src, gen_prog.render(transform_tree(tree, ctx.rng, "braces"), g.vars), None, fin, strict)
         check("dowhile", src, gen_prog.render(transform_tree(tree, ctx.rng, "dowhile"), g.vars), None, fin, strict)
+        ub = gen_prog.render(transform_tree(tree, ctx.rng, "unbrace"), g.vars)
+        if ub != src:
+            check("braces", src, ub, None, fin, strict)
+        if i % 2 == 0:
+            # loop mode: the set of analysed loops and their results under the layout transformations (brace-less nesting included)
+            dw = gen_prog.render(transform_tree(transform_tree(tree, ctx.rng, "unbrace"), ctx.rng, "dowhile"), g.vars)
+            loop_check("dowhile", ub, dw, strict)
+            loop_check("braces", src, ub, strict)
+            loop_check("braces", src, gen_prog.render(transform_tree(tree, ctx.rng, "braces"), g.vars), strict)
         # function order
         g2 = gen_prog.Gen(ctx.rng, streams.cfg_for(ctx.rng, 4))
         src2 = gen_prog.render(g2.program(), g2.vars, fname="g")
@@ -186,6 +268,9 @@ def replay(ctx, data):
     if "twin" not in inp:
         return None
     o = inp.get("opts", {})
+    if str(inp.get("kind", "")).startswith("loop-"):
+        la, lb = loop_obs(inp["src"], None, o.get("strict", False)), loop_obs(inp["twin"], None, o.get("strict", False))
+        return None if la == lb else {"what": f"{inp['kind']}: differs", "sig": data.get("sig"), "input": inp}
     ra, rb = e2e.run_real(inp["src"], o.get("fin", False), o.get("strict", False)), e2e.run_real(inp["twin"], o.get("fin", False), o.get("strict", False))
     if ra["exc"] or rb["exc"]:
         return {"what": "raise", "sig": ["C12", "raise", inp.get("kind")], "input": inp}
